@@ -259,14 +259,43 @@ func checkC10(p *Program, r *Report) {
 	// ---- a hit carries a supplied value: the value array layout decision is per element
 	checkVLenWidth(p, r, "C10.vlen-width")
 
+	// ---- session typestate: no lookup reads a session field left over from a previous node
+	checkSessionTypestate(p, r, "C10.session-valid")
+
 	// ---- same descent
 	r.Rule("C10.same-descent", "structure+E6", "one descent per answer family; equal cursor arithmetic", 3)
 	getID := p.Method(p.Trie, "SlimTrie", "GetID")
 	get := p.Method(p.Trie, "SlimTrie", "Get")
 	if getID != nil && get != nil {
-		gs := analyseGetter(p, get, getID)
-		r.Check(gs.why == "" && gs.found != nil && usesValue(gs.found.Results[0], gs.idCall), "Get derives hit and value from one GetID call", p.Pos(get.Pos()),
-			"found iff GetID(key) != -1; the value is the leaf of that id", "Get does not derive both its flag and its value from one GetID(key) call: "+gs.why)
+		gs := summariseGetter(p, get)
+		idS := idTermOfGet(gs)
+		why := gs.why
+		if why == "" && idS == "" {
+			why = "its not-found answers are not given under one condition id == -1 on the key"
+		}
+		if why == "" {
+			for _, fp := range gs.nf {
+				if fp.pcKey() != "(-1 == "+idS+")" {
+					why = "a not-found answer is given under [" + abbreviate(fp.pcKey()) + "]"
+				}
+			}
+			for _, fp := range gs.found {
+				has := false
+				for _, c := range fp.pc {
+					if c == "(-1 != "+idS+")" {
+						has = true
+					}
+				}
+				v := fp.results[0].String()
+				if !has {
+					why = "a found answer is given under [" + abbreviate(fp.pcKey()) + "], not under GetID(key) != -1"
+				} else if (strings.Contains(v, "Slim.") || strings.Contains(v, "VLenArray.")) && !strings.Contains(v, idS) {
+					why = "the value " + abbreviate(v) + " of a found answer is not derived from the id of that lookup"
+				}
+			}
+		}
+		r.Check(why == "", "Get derives hit and value from one GetID call", p.Pos(get.Pos()),
+			"found iff GetID(key) != -1; the value is the leaf of that id", "Get does not derive both its flag and its value from one GetID(key) call: "+why)
 	} else {
 		r.Unk("Get/GetID", "", "anchor not found")
 	}
